@@ -46,7 +46,7 @@ def _names():
   stem = st.text(alphabet='abcdefghijklmnopqrstuvwxyzABCDEFGHXYZ0123456789', min_size=1, max_size=8).filter(
       lambda s: not s[0].isdigit())
   deco = st.sampled_from(['{}', '_{}', '{}_', '_{}_', '{}'])
-  mid = st.tuples(stem, stem).map(lambda t: t[0] + '_' + t[1])
+  mid = st.tuples(stem, st.sampled_from(['_', '_', '__', '___']), stem).map(lambda t: t[0] + t[1] + t[2])
   plain = st.tuples(weighted((2, stem), (1, mid)), deco).map(lambda t: t[1].format(t[0]))
   # what the Thrift compiler does with method names that are Python keywords, and other names with a meaning of their own
   special = st.sampled_from(['from_', 'in_', 'is_', 'pass_', 'class_', 'import_', 'lambda_', 'print_', 'exec_', 'None_', 'get', 'Get', 'close_', 'open'])
